@@ -157,6 +157,47 @@ Proof.
   unfold w2_eq. cbn [wx1 wx2 wV wl1 wl2]. repeat split; vm_compute; reflexivity.
 Qed.
 
+(* scaling the feed scales the products.  FULL STATEMENT (not proved as a whole; measured on the real code by oracle() in
+   props/C04.py): for oracles related by [orc_scaled] -- same bubble / dew / bracketing answers, raw vapour flows, enthalpies
+   and entropies multiplied by k, i.e. solvers that depend on the normalised composition only -- the flash of the feed
+   multiplied by k is the flash of the feed, multiplied by k *)
+Definition scale_st (k : Q) (s : vst) : vst :=
+  mkst (vscale k (liq s)) (vscale k (vap s)) (map (vscale k) (oth s)) (sT s) (sP s).
+Definition st_equiv (a b : vst) : Prop :=
+  veq (liq a) (liq b) /\ veq (vap a) (vap b) /\ Forall2 veq (oth a) (oth b) /\ sT a == sT b /\ sP a == sP b.
+Definition orc_scaled (k : Q) (o o' : oracle) : Prop :=
+  o_Tc o' = o_Tc o /\ o_Psat o' = o_Psat o /\ o_Tsat o' = o_Tsat o /\
+  o_lim_light o' = o_lim_light o /\ o_lim_heavy o' = o_lim_heavy o /\
+  o_bubble o' = o_bubble o /\ o_dew o' = o_dew o /\ o_iq o' = o_iq o /\
+  (forall t, veq (o_v o' t) (vscale k (o_v o t))) /\
+  (forall t s s' T P, st_equiv s' (scale_st k s) -> o_xH o' t s' T P == k * o_xH o t s T P) /\
+  (forall t g m m' T P, veq m' (vscale k m) -> o_Hp o' t g m' T P == k * o_Hp o t g m T P) /\
+  (forall t s s' H T P, st_equiv s' (scale_st k s) -> o_solveT o' t s' (k * H) T P == o_solveT o t s H T P).
+Definition scale_spec (k : Q) (sp : spec) : spec :=
+  match sp with
+  | SpTH T H => SpTH T (k * H) | SpTS T Sv => SpTS T (k * Sv)
+  | SpPH P H => SpPH P (k * H) | SpPS P Sv => SpPS P (k * Sv)
+  | sp => sp
+  end.
+Definition C04_vle_homogeneous_statement : Prop :=
+  forall cf orc orc' k sp st, 0 < k -> orc_scaled k orc orc' ->
+  match vle cf orc sp st, vle cf orc' (scale_spec k sp) (scale_st k st) with
+  | VOk a, VOk b => st_equiv b (scale_st k a)
+  | VErr e _, VErr e' _ => e = e'
+  | _, _ => False
+  end.
+
+(* PARTIAL: the in-repo facts that make it hold.  The clipping of _solve_v commutes with a positive scale, the closed-form
+   Rachford-Rice root does not depend on the scale of z, and the Rachford-Rice function is homogeneous in z (so its roots
+   do not depend on the scale of z either).  Missing: the simulation argument through every branch of the wrapper. *)
+Theorem C04_vle_homogeneous_partial :
+  (forall k v m, 0 < k -> clip1 (k * v) (k * m) == k * clip1 v m) /\
+  (forall k z1 z2 K1 K2 V, ~ k == 0 -> rr2 z1 z2 K1 K2 = Ok V ->
+     exists V', rr2 (k * z1) (k * z2) K1 K2 = Ok V' /\ V' == V) /\
+  (forall k zs Ks V, rr (vscale k zs) Ks V == k * rr zs Ks V).
+Proof. split; [exact clip1_scale|split; [exact rr2_scale|exact rr_scale]]. Qed.
+Print Assumptions C04_vle_homogeneous_partial.
+
 (* non-vacuity *)
 Example C04_rr2_nonvacuous :
   rr2 (1#2) (1#2) 2 (1#2) = Ok ((- (2 * (1#2) + (1#2) * (1#2)) + ((1#2) + (1#2))) / rr2_den (1#2) (1#2) 2 (1#2))
